@@ -49,13 +49,13 @@ CLAIMED["C12"] = dict(
    note="Trusted: errors.Is/As semantics; unknown Unwind()/Unwrap() []error implementations return arbitrary slices.",
    technique="contract-based deductive verification with ghost sequences and quantified chain invariants")
 CLAIMED["C16"] = dict(
-   text="dt.List kernel against a ghost sequence model with inverse index: uncheckedAppend/uncheckedRemove preserve the circular doubly-linked well-formedness (forward links, backward links, ownership, Len, view all agree) and perform insert/remove on the view; Append/Remove/Drop/Set/In, PushFront/PushBack, PopFront/PopBack/pop, Front/Back, Len, lazySetup proved including every rejected case (nil, not-ok, detached, already attached, root, other list) leaving all lists unchanged. Swap is a recorded known finding. Not yet under contract: Extend, Copy, iterators, JSON, dt.Stack.",
+   text="dt.List kernel against a ghost sequence model with inverse index: uncheckedAppend/uncheckedRemove preserve the circular doubly-linked well-formedness (forward links, backward links, ownership, Len, view all agree) and perform insert/remove on the view; Append/Remove/Drop/Set/In, PushFront/PushBack, PopFront/PopBack/pop, Front/Back, Len, lazySetup proved including every rejected case (nil, not-ok, detached, already attached, root, other list) leaving all lists unchanged. every kernel operation is also proved to leave every OTHER well-formed list unchanged (frame over all lists); Extend moves all elements of the input, in order, to the end. Swap is a recorded known finding. Not yet under contract: Copy, iterators, JSON, dt.Stack.",
    ref="DESIGN.md 7/C16",
    note="Trusted: none beyond the engine; element handles are arbitrary references constrained only by the well-formedness of the list they claim to belong to.",
    technique="contract-based deductive verification with ghost sequences, ghost inverse index and quantified invariants")
 
 CLAIMED["C17"] = dict(
-   text="IsSorted and Heap against the ordering relation, with the comparison function as an uninterpreted pure total function (role dt/cmp.LessThan): List.IsSorted(lt) returns exactly 'no element is lt its predecessor' (true for lists shorter than two) - loop invariant over the element index, both directions of the equivalence proved, termination by a variant; Heap.lazySetup/Len/Push/Pop: the heap's list stays well-formed and sorted (no element LT its predecessor), Push inserts exactly one fresh element holding the pushed value at a position that keeps the list sorted and leaves every other element in place (view == insert(old view, k, new)), Pop removes and returns exactly the head, so successive pops are non-decreasing and return every pushed value exactly once; Push's scan terminates (variant). Not under contract (not proved): SortMerge / mergeSort / split / merge and SortQuick (sort.SliceStable) - permutation, sortedness, stability and 'the list remains usable' for the two sort entry points are NOT decided by this check.",
+   text="IsSorted and Heap against the ordering relation, with the comparison function as an uninterpreted pure total function (role dt/cmp.LessThan): List.IsSorted(lt) returns exactly 'no element is lt its predecessor' (true for lists shorter than two) - loop invariant over the element index, both directions of the equivalence proved, termination by a variant; Heap.lazySetup/Len/Push/Pop: the heap's list stays well-formed and sorted (no element LT its predecessor), Push inserts exactly one fresh element holding the pushed value at a position that keeps the list sorted and leaves every other element in place (view == insert(old view, k, new)), Pop removes and returns exactly the head, so successive pops are non-decreasing and return every pushed value exactly once; Push's scan terminates (variant). split (the first len - len/2 elements move, in order, to a new list; both lists stay well-formed) and List.Extend (all elements of the input move, in order, to the end; other lists untouched) are proved. Not under contract (not proved): SortMerge / mergeSort / merge (attempted; the loop invariants needed - sortedness of three lists, element ownership and the frame for all other lists at once - were at the edge of what the solvers decide within the timeout, so they are not claimed) and SortQuick (sort.SliceStable) - permutation, sortedness, stability and 'the list remains usable' for the two sort entry points are NOT decided by this check.",
    ref="DESIGN.md 7/C17",
    note="Assumed: asymmetry of LT between the pushed value and the values in the heap (a consequence of 'strict weak ordering' in the statement) as a precondition of Heap.Push; comparison functions are pure (declared role). Trusted: the List kernel contracts of C16 (proved there).",
    technique="contract-based deductive verification: loop invariants + variants over a ghost sequence view, comparison function as uninterpreted function")
